@@ -55,6 +55,11 @@ void calcVarExpressed(double ss, dvector *eval, dvector *varexp)
 /* ss is the sum of squares, eval = eigenvalue  varexp is an object that is resized for each component */
 {
   for(size_t i = 0; i < eval->size; i++){
+    if(ss == 0.f){
+      /* no variance at all in the data: nothing can be explained */
+      DVectorAppend(varexp, 0.f);
+      continue;
+    }
     DVectorAppend(varexp, (eval->data[i]/ss) * 100);
     #ifdef DEBUG
     printf("Variance expressed for PC %u\t %f\n", (unsigned int)i, (getDVectorValue(eval, i)/ss) * 100);
@@ -265,6 +270,16 @@ void PCA(matrix *mx, int scaling, size_t npc, PCAMODEL* model, ssignal *s)
         MT_DVectorMatrixDotProduct(E, t, p);
         /* calc the vectors product t'*t = Sum(t[i]^2) */
         mod_t = DVectorDVectorDotProd(t, t);
+
+        if(mod_t == 0.f || _isnan_(mod_t)){
+          /* Null component: the working matrix has nothing left to extract
+           * (constant data, or more components requested than the rank).
+           * p = E't/t't would be 0/0 and the convergence test could never succeed:
+           * leave scores and loadings of this component at zero with eigenvalue 0.
+           */
+          eval->data[pc] = 0.f;
+          break;
+        }
 
         /* division of (t'*E)/t'*t (mx.p/mx.mod_t_old) for calculate the p' vector that represents the loadings */
         for(i = 0; i < p->size; i++)
